@@ -693,6 +693,13 @@ class Machine:
                 except TypeError:
                     pass
                 return
+            if full_slice and isinstance(t.value, ast.Attribute) and not isinstance(base, (Ref, dict, list)):
+                # slot[:] = v on a stored array / Cell: the slot's object now holds a copy of v's contents (for the slot
+                # itself the same effect as rebinding it to a copy; other names bound to that object are not followed)
+                o = self.ev(t.value.value, env, fi)
+                if isinstance(o, Ref) and o.comp is None and o.obj != "atoms":
+                    self.setattr(o, t.value.attr, V(self.value_of(v)) if not isinstance(v, V) else v, fi, st)
+                    return
             return  # writes into local temporaries (arrays, lists) are not tracked
         raise SimUnsupported(f"{fi.qualname}: store `{norm(t)}`")
 
